@@ -55,6 +55,24 @@ Proof. intros H. apply (wire_run_forall op_ok (fun _ _ => eq_refl) (fun _ => eq_
 Theorem wire_ops_fams_ok h : xfams_ok h = true -> fams_ok (wire_ops h) = true.
 Proof. intros H. apply (wire_run_forall op_fams_ok abstract_fams_ok (fun _ => eq_refl) h pend_none H). Qed.
 
+Theorem wire_ops_premises h :
+  (xdisciplined h = true -> disciplined (wire_ops h) = true) /\ (xfams_ok h = true -> fams_ok (wire_ops h) = true).
+Proof. split; [apply wire_ops_disciplined|apply wire_ops_fams_ok]. Qed.
+
+(* the pipeline is handed exactly the messages C05's session over the same octets (BmpWireAbs.wire_session) steps through *)
+Lemma omap_id_fmap {A B} (f : A -> option B) l : omap id (map f l) = omap f l.
+Proof. induction l as [|a l IH]; [reflexivity|]. cbn [map omap list_omap]. unfold id at 1. destruct (f a); rewrite IH; reflexivity. Qed.
+
+Theorem deliver_session k octets :
+  (deliver k octets).1 = map (WMsg k) (omap item_msg (BmpWire.stream octets).1) ++ end_ops k (BmpWire.stream octets).2 /\
+  forall r rid s, (wire_session r rid s octets).1 = (sm_run r rid s (omap item_msg (BmpWire.stream octets).1)).1.
+Proof.
+  split.
+  - unfold deliver. destruct (BmpWire.stream octets) as [items e]. cbn [fst snd]. f_equal.
+    induction items as [|[m|fr] items IH]; [reflexivity|..]; cbn [flat_map item_ops app omap list_omap item_msg map]; rewrite IH; reflexivity.
+  - intros r rid s. unfold wire_session. rewrite sess_run_state, omap_id_fmap. reflexivity.
+Qed.
+
 (* ---------- the composition ---------- *)
 Theorem wire_stream_rib_answer h x i f p :
   xdisciplined h = true -> xfams_ok h = true -> N.of_nat (length (wire_ops h)) < two32 - 2 ->
@@ -86,6 +104,43 @@ Proof.
   - intros E. assert (Ek : k = k') by exact (f_equal fst E). assert (H : abs_pph p = abs_pph q) by exact (f_equal snd E).
     split; [exact Ek|]. apply (abs_pph_ident p q Hp Hq), H.
   - intros [-> H]. apply (abs_pph_ident p q Hp Hq) in H. rewrite H. reflexivity.
+Qed.
+
+(* every per-peer header the decoder yields is well-formed: [wire_identity] speaks about all of them *)
+Lemma u32_lt a b c d : a < 256 -> b < 256 -> c < 256 -> d < 256 -> BmpWire.u32 a b c d < 4294967296.
+Proof. unfold BmpWire.u32. lia. Qed.
+
+Lemma dec_pph_wf b p r : BmpWire.dec_pph b = Some (p, r) -> BgpModel.bytes_ok b = true -> BmpWire.pph_wf p = true.
+Proof.
+  unfold BmpWire.dec_pph. destruct b as [|ty [|fl r0]]; try discriminate.
+  destruct (ty <=? 3) eqn:Ety; [|discriminate].
+  destruct (BgpModel.take_n 8 r0) as [[d r1]|] eqn:H8; [|discriminate].
+  destruct (BgpModel.take_n 16 r1) as [[a [|a3 [|a2 [|a1 [|a0 r2]]]]]|] eqn:H16; try discriminate.
+  destruct (BgpModel.take_n 4 r2) as [[id [|s3 [|s2 [|s1 [|s0 [|u3 [|u2 [|u1 [|u0 rest]]]]]]]]]|] eqn:H4; try discriminate.
+  intros [= <- <-] Hb.
+  apply BgpProofs.take_n_inv in H8 as [-> L8]. apply BgpProofs.take_n_inv in H16 as [-> L16].
+  apply BgpProofs.take_n_inv in H4 as [-> L4].
+  repeat (rewrite ?BmpWireProofs.bytes_ok_cons_eq, ?BgpProofs.bytes_ok_app, ?andb_true_iff in Hb).
+  destruct Hb as (Hty & Hfl & Hd & Ha & Ha3 & Ha2 & Ha1 & Ha0 & Hid & Hs3 & Hs2 & Hs1 & Hs0 & Hu3 & Hu2 & Hu1 & Hu0 & _).
+  unfold BmpWire.pph_wf, BgpModel.byte_ok in *.
+  cbn [BmpWire.wp_type BmpWire.wp_flags BmpWire.wp_dist BmpWire.wp_addr BmpWire.wp_as BmpWire.wp_id BmpWire.wp_sec BmpWire.wp_usec].
+  rewrite !andb_true_iff, !N.ltb_lt, !N.eqb_eq, N.leb_le. rewrite N.ltb_lt in *. apply N.leb_le in Ety.
+  repeat split; try assumption; apply u32_lt; assumption.
+Qed.
+
+Theorem decode_pph_wf b m p : BmpWire.decode b = Some m -> msg_pph m = Some p -> BmpWire.pph_wf p = true.
+Proof.
+  unfold BmpWire.decode. destruct b as [|ver [|l3 [|l2 [|l1 [|l0 [|ty body]]]]]]; try discriminate.
+  destruct (_ && _) eqn:Ec; [|discriminate]. apply andb_prop in Ec as [_ Hb].
+  do 6 (rewrite BmpWireProofs.bytes_ok_cons_eq in Hb; apply andb_prop in Hb as [_ Hb]).
+  unfold BmpWire.dec_body.
+  destruct ty as [|q]; [|do 3 (try destruct q as [q|q|])];
+    try (destruct (BmpWire.dec_tlvs _ _); [intros [= <-]|]; discriminate);
+    (destruct (BmpWire.dec_pph body) as [[p' r]|] eqn:Hp; [|discriminate]);
+    pose proof (dec_pph_wf body p' r Hp Hb) as Hw;
+    repeat match goal with
+           | |- context [match ?x with _ => _ end] => destruct x eqn:?
+           end; try discriminate; intros [= <-]; intros [= <-]; exact Hw.
 Qed.
 
 (* ---------- streams that are encodings ---------- *)
